@@ -269,6 +269,49 @@ func ruleR041(c *Ctx) {
 		}
 		return true // a decode width (or a sum of widths)
 	}
+	advancing := []*types.Func{next, consume, read, readSkip, readStr, parseOperator}
+	// wrappers: a Tokenizer method that is straight line code, calls an advancing method and never un-reads
+	// advances as well (nextRaw: t.next(false); return t.lastRaw). Derived from the source on every run.
+	for round := 0; round < 2; round++ {
+		for _, f := range root.Syntax {
+			for _, d := range f.Decls {
+				fd, ok := d.(*ast.FuncDecl)
+				if !ok || fd.Body == nil || fd.Recv == nil || recvTypeName(fd.Recv.List[0].Type) != "Tokenizer" {
+					continue
+				}
+				obj, _ := info.Defs[fd.Name].(*types.Func)
+				known := false
+				for _, m := range advancing {
+					if m == obj {
+						known = true
+					}
+				}
+				if known || obj == nil || obj == unread || obj == peek {
+					continue
+				}
+				straight, adv, ret := true, false, false
+				ast.Inspect(fd.Body, func(x ast.Node) bool {
+					switch t := x.(type) {
+					case *ast.IfStmt, *ast.ForStmt, *ast.RangeStmt, *ast.SwitchStmt, *ast.TypeSwitchStmt, *ast.SelectStmt, *ast.GoStmt, *ast.DeferStmt, *ast.FuncLit, *ast.BranchStmt:
+						straight = false
+					case *ast.CallExpr:
+						if isCallTo(info, t, unread) {
+							ret = true
+						}
+						for _, m := range advancing {
+							if isCallTo(info, t, m) {
+								adv = true
+							}
+						}
+					}
+					return true
+				})
+				if straight && adv && !ret {
+					advancing = append(advancing, obj)
+				}
+			}
+		}
+	}
 	w := &advWalker{info: info}
 	w.advance = func(n ast.Node) bool {
 		if isStrAdvance(n) {
@@ -278,7 +321,7 @@ func ruleR041(c *Ctx) {
 		if !ok {
 			return false
 		}
-		for _, m := range []*types.Func{next, consume, read, readSkip, readStr, parseOperator} {
+		for _, m := range advancing {
 			if isCallTo(info, call, m) {
 				return true
 			}
